@@ -25,7 +25,7 @@ type scanTables struct {
 	order      []string          // scan order (TokenType constant names)
 	scanLoop   *ast.ForStmt
 	scanFD     *ast.FuncDecl
-	foundFD    *ast.FuncDecl // the per-type matching method used in the case arms
+	foundFD    *ast.FuncDecl  // the per-type matching method used in the case arms
 	tableLoop  *ast.RangeStmt // data-driven scan: the loop over the table of token types
 	orChain    ast.Expr       // scan written as found(A) || found(B) || ...
 	problems   []string
